@@ -124,7 +124,41 @@ def native_check(kind, n, env=None, seed=0):
     return fails
 
 
+def nll_every_basis(kind, n, seed=0):
+    """NLL on a data set holding every basis string of an n-site chain (3^n bases, one or two samples each, shuffled),
+    against minus the mean log Born probability computed per sample from the dense rotation."""
+    from functools import reduce
+    from qucumber.utils import training_statistics as ts, unitaries
+    rng = np.random.default_rng(seed)
+    st = C.make_state(kind, n, 2, 1)
+    C.randomize(st, rng, 0.5)
+    space = st.generate_hilbert_space(n)
+    rho = rho_of(st, kind, space)
+    rn = rho / np.real(np.trace(rho))
+    ud = unitaries.create_dict()
+    strings = ["".join(s) for s in itertools.product("XYZ", repeat=n)]
+    bs = strings + list(rng.choice(strings, size=30))
+    rng.shuffle(bs)
+    rows = rng.integers(0, 2 ** n, size=len(bs))
+    samples = space[rows].clone()
+    got = ts.NLL(st, samples, space, sample_bases=np.array([list(b) for b in bs]))
+    tot = 0.0
+    cache = {}
+    for b, k in zip(bs, rows):
+        if b not in cache:
+            Ub = reduce(np.kron, [ud[c][0].numpy() + 1j * ud[c][1].numpy() for c in b])
+            cache[b] = np.real(np.einsum("ij,jk,ik->i", Ub, rn, Ub.conj()))
+        tot -= np.log(cache[b][k])
+    want = tot / len(bs)
+    if not _plain(got) or abs(got - want) > 1e-9 * (1 + abs(want)):
+        return [("NLL over every basis string of %d sites != -mean log P_b(s)" % n, (float(got), want))]
+    return []
+
+
 def replay(cfg, env, short):
+    if cfg.get("fn") == "NLL-grouping":
+        f = nll_every_basis("complex" if cfg.get("flavour") == "pure" else "mixed", cfg.get("n", 6), 0)
+        return {"reproduced": bool(f), "failed_clauses": [(a, str(b)[:200]) for a, b in f[:2]], "cfg": cfg}
     kinds = ["positive", "complex"] if cfg.get("flavour") == "pure" else ["mixed"] if cfg.get("flavour") == "mixed" else ["complex", "mixed"]
     fails = []
     for kind in kinds:
@@ -145,6 +179,11 @@ def bounded(tier, seed):
             n += 1
             if f:
                 bad.append((kind, nv, f[:3]))
-    return {"driver": "drivers/C10.native_check", "label": "bounded", "evaluations": n, "failures": len(bad),
-            "bound": "float64; one random model and random normalised target per (state type, n); Uhlmann fidelity via scipy sqrtm; KL >= 0 and fidelity in [0,1] checked numerically",
+    for kind, nn in ((("complex", 6),) if tier == "quick" else (("complex", 6), ("mixed", 6), ("complex", 7))):
+        f = nll_every_basis(kind, nn, seed)
+        n += 1
+        if f:
+            bad.append((kind, nn, f[:2]))
+    return {"driver": "drivers/C10.native_check + nll_every_basis", "label": "bounded", "evaluations": n, "failures": len(bad),
+            "bound": "NLL over all 3^6 basis strings of a 6-site chain; float64; one random model and random normalised target per (state type, n); Uhlmann fidelity via scipy sqrtm; KL >= 0 and fidelity in [0,1] checked numerically",
             "first_failures": bad[:3]}
